@@ -217,6 +217,12 @@ pub fn after_op(
                 // not decrypt under a dispute already confirmed: then an older version may still be there)
                 let submitted = if let HOp::Add { blob, .. } = op { g.sys.build_blob(blob).0 } else { vec![] };
                 let dropped_undecryptable = in_last6 && pen.is_none();
+                let sub_tsd = if let HOp::Add { tsd, .. } = op { *tsd } else { 0 };
+                if let Some(row) = cur.appts.get(&key) {
+                    if row.0 == submitted && row.1 != sub_tsd && !dropped_undecryptable {
+                        g.rep.fail("C08", "stored_version_is_not_the_accepted_one", &format!("a receipt was returned for {key:?} with to_self_delay {sub_tsd} but the row holds to_self_delay {} (same blob): the version last accepted is not what is stored", row.1));
+                    }
+                }
                 if let Some(stored) = sent_blob {
                     if stored != submitted && !dropped_undecryptable {
                         g.rep.fail("C08", "stored_version_is_not_the_accepted_one", &format!("a receipt was returned for a new version of {key:?} ({} bytes) but the row still holds another version ({} bytes)", submitted.len(), stored.len()));
@@ -300,6 +306,7 @@ pub fn after_op(
             let given = (sent_ok(p) && verdict(p) == SendR::Ok) || in_mempool(p) || g.sys.chain.iter().any(|b| b.3.contains(&p));
             if !given {
                 g.rep.fail("C02", "tracker_without_node_having_penalty", &format!("tracker {k:?} created, penalty t{} neither accepted by the node, nor in its mempool, nor confirmed", p * 16));
+                g.rep.fail("C01", "responded_without_submission", &format!("{k:?} is reported as responded (tracker created) but penalty t{} was neither accepted by the node now, nor is it in the node's mempool or in the active chain", p * 16));
             }
             let spec = cur.appts.get(k).and_then(|a| g.sys.blobs.get(&a.0).cloned());
             if decrypts_to(spec.as_ref(), tr.0) != Some(p) || tr.0 != k.0 {
@@ -550,6 +557,7 @@ fn request_checks(g: &mut Gen, op: &HOp, out: &Outcome, user: u32, sig: &SigKind
             Some(ui) => {
                 if height >= ui.2 {
                     g.rep.fail("C09", "served_after_expiry", &format!("request served at height {height}, expiry {}", ui.2));
+                    g.rep.fail("C06", "served_after_expiry", &format!("{op:?} was served at height {height} although the subscription of its signer ended at {}: the expiry check comes before any effect", ui.2));
                 }
             }
         }
